@@ -17,6 +17,7 @@ THEOREMS = [
     "BeyondVerif.C18.spk_antisymm",
     "BeyondVerif.C18.growth_consistent",
     "BeyondVerif.C18.growth_uniqueCenter",
+    "BeyondVerif.C18.perm_growth_consistent",
     "BeyondVerif.C18.de403_growth",
     "BeyondVerif.C18.de403_routes",
     "BeyondVerif.C18.de403_spk_chain",
@@ -25,6 +26,7 @@ THEOREMS = [
     "BeyondVerif.C18.spk_propagator_either_direction",
     "BeyondVerif.C18.spk_attached_frames",
     "BeyondVerif.C18.spk_as_frame",
+    "BeyondVerif.C18.attach_potential_all",
     "BeyondVerif.C18.history_independent",
     "BeyondVerif.C18.inplace_is_copy",
     "BeyondVerif.C18.object_tracks_body",
@@ -38,17 +40,17 @@ THEOREMS = [
     "BeyondVerif.C18W.two_centres_consistent",
     "BeyondVerif.C18W.two_centres_wrong",
     "BeyondVerif.C18W.asframe_reframed_consistent",
-    "BeyondVerif.C18W.asframe_reframed_wrong",
+    "BeyondVerif.C18W.asframe_reframed_fixed",
 ]
 LEVEL_TEXT = ("Lean theorems about a model of create_frames / JplPropagator.propagate / Center.convert_to / Frame.transform (routing = the Node model of C20; "
               "jplephem segment values are a parameter): for EVERY kernel in which no body is the target of two centres, all segment values deriving from one "
-              "position per body (proved to exist for every kernel grown segment by segment), every ordered pair of bodies and every fuel, the vector returned by "
+              "position per body (proved to exist for every kernel grown segment by segment, in any order of the segments: perm_growth_consistent), every ordered pair of bodies and every fuel, the vector returned by "
               "get_orbit(a).copy(frame=b) and by re-framing a zero state vector is the position/velocity of a relative to b in m, m/s, equals the signed sum of the "
               "file's segments along a chain of kernel links, and a->b = -(b->a); for the DE403 kernel of the test data (pairs regenerated from the file each run) all "
               "256 ordered pairs are routed (kernel decide) and return exactly that vector; independence of the PCK constants. Every public route and histories: a JplPropagator "
               "built by hand for the reverse of a segment returns minus the direct one in all six components (spk_propagator_reverse) and, either way, position and velocity of the "
               "first body relative to the second (spk_propagator_either_direction); conversions between any frames, kernel bodies or frames made with Orbit.as_frame/orbit2frame, add "
-              "the difference of the centres' positions, the frame made from the orbit of a body as seen from either end of its segment (a non-Earth centre) being centred on that body "
+              "the difference of the centres' positions, the frame made from the orbit of a body as seen from either end of its segment (a non-Earth centre), whatever frame the orbit had been re-framed to, being centred on that body "
               "(spk_attached_frames, spk_as_frame); in EVERY world - whatever objects the caller holds, however he modified them in place, whatever admissible frames he attached - a "
               "request returns the vector the property states, a function of the kernel and the segment values at its date only (history_independent: the model, like the code, keeps no "
               "memory between requests); orb.frame = b leaves in orb what orb.copy(frame=b) returns, still the position of its body (inplace_is_copy, object_tracks_body). Sun/Moon: the two series are translated "
@@ -57,12 +59,13 @@ LEVEL_TEXT = ("Lean theorems about a model of create_frames / JplPropagator.prop
               "instantiated to the two steps read from the classes). The model is tied to the code by a differential correspondence on all ordered pairs of the real "
               "kernel with and without PCK files, on synthetic kernels installed in place of the file, on the two propagators, and on histories of requests driven through the real objects "
               "(get_orbit / get_propagator / Body.propagate / hand-made propagators in both directions of every segment, in-place frame, form and value changes of the answers, copies, "
-              "as_frame of the answers, Center.convert_to, repeated and interleaved dates and bodies) against the Lean state machine `run` fed with the same segment values.")
+              "as_frame of the answers incl. QSW/TNW orientations and Ephem.as_frame at the nodes, synthetic SPK type 3 segments, Center.convert_to, repeated and interleaved dates and bodies) against the Lean state machine `run` fed with the same segment values.")
 LEVEL_NOTE = ("proof (partial): the first sentence of the property - agreement of the analytical series with the JPL DE ephemeris to 0.02 deg / 1e-4 (Sun), 0.7 deg / 0.5 % (Moon) - "
               "relates a formula to the contents of a binary data file; no theorem expresses it, it is exercised by the oracle only (DE403, 2000-2020 grid). "
               "R -> double gap covered only by tolerance-bounded correspondence (1e-12 SPK, 1e-10 series). Kernels where a body is the target of two centres are "
-              "excluded by hypothesis (open finding C18-two-centres, kernel-checked counter-witness); so are frames made with as_frame from an orbit that was re-framed before "
-              "(hypothesis AttOK, open finding C18-asframe-reframed, kernel-checked counter-witness). Totality (a vector IS returned) is proved for the DE403 kernel only; "
+              "excluded by hypothesis (open finding C18-two-centres, kernel-checked counter-witness). Frames made with as_frame from an orbit that was re-framed before are covered since "
+              "commit 261fb0a (Center.offset_frame; finding C18-asframe-reframed fixed, regression witness asframe_reframed_fixed): the only condition left on attached frames is the "
+              "naming convention AttPos (the new centre is given the position of the orbit's body), which attach_potential_all shows can always be met for fresh distinct names. Totality (a vector IS returned) is proved for the DE403 kernel only; "
               "for arbitrary trees it rests on C20's open forest-routing obligation.")
 TECHNIQUE = ("Lean 4 proof: induction over the routed path (telescoping of potentials) on top of C20's path_valid_chain; decide on the regenerated kernel; "
              "ring/linear_combination identities on series translated from the Python AST; Mathlib calculus for the difference-quotient bound; differential correspondence")
@@ -78,7 +81,7 @@ ASSUMPTIONS = [
     "bodies are identified by NAIF code; distinct codes of the kernel have distinct title-cased names (checked by extract for the real kernel)",
     "all frames involved share the EME2000 orientation, so orientation.convert_to is the identity matrix (checked by correspondence incl. the built-in EME2000 frame)",
     "the built-in Earth centre hangs below the kernel's Earth through a zero offset (the create_frames epilogue); modelled by identifying the two",
-    "segments are of the position-only type (len(pos) == 3: velocity in km/day divided by 86400); the len(pos) == 6 branch of propagate is not modelled (no such segment in DE kernels)",
+    "the Lean model has the position-only segments (len(pos) == 3: velocity in km/day divided by 86400); the len(pos) == 6 branch of propagate (SPK type 3: km and km/s, no such segment in DE kernels) is exercised with synthetic type 3 segments, presented to the model and to the direct chaining as the equivalent km/day values (km/s x 86400): the branch is tied to the statement by correspondence and oracle (2 ulp), not by a case of its own in the model",
     "create_frames is called once per process (the harness runs each configuration in its own process)",
     "frames made with as_frame get names no kernel body has (Fresh), each name used once per process (re-using a name overwrites the class attribute <name>_to_<parent>; not modelled)",
     "in-place changes of form (orb.form = 'spherical') do not move the point an object represents: they are applied to the real objects and skipped in the model (compared at 1e-8 afterwards)",
@@ -88,11 +91,11 @@ NOT_COVERED = [
     "agreement of the analytical Sun and Moon series with the JPL DE ephemeris (0.02 deg, 1e-4; 0.7 deg, 0.5 %): formula vs binary data file - oracle only (DE403 2000-2020)",
     "a bound on the third derivative of the two series (needed to turn velocity_error_at_steps into a number): oracle only (numerical third differences)",
     "dates outside the span of the kernel (jplephem raises) and kernels with several time-sliced segments for one (center, target) pair",
-    "Ephem.as_frame (interpolated offsets) and the QSW/TNW orientations of orbit2frame (C02); jpl.get_body(name) without PCK files raises UnknownBodyError for every name (no vector is returned; the route Body.propagate is exercised through get_frame(name).center.body, and through get_body when PCK files are configured)",
+    "Ephem.as_frame away from the nodes of the Ephem (interpolation error; at a node the offset is the propagated state: covered, at 1e-8); for frames made with orientation='QSW'/'TNW' only the centre is checked (conversions of the origin FROM the new frame; the rotation itself is C02's); jpl.get_body(name) without PCK files raises UnknownBodyError for every name (no vector is returned; the route Body.propagate is exercised through get_frame(name).center.body, and through get_body when PCK files are configured)",
 ]
 OPEN = [
     "totality for arbitrary tree kernels (a path is always found): proved by decide for the DE403 kernel, otherwise inherited from C20's open forest_routes_exact",
-    "existence of consistent positions is proved for kernels grown segment by segment (each new segment hangs a new body); not for trees given in an arbitrary order of segments",
+    "existence of consistent positions is proved for every kernel that is a permutation of one grown segment by segment (perm_growth_consistent); that every forest in which each body is the target of at most one segment HAS such an ordering is not formalised",
     "smoothness and explicit third-derivative bounds of sunSeries / moonSeries are not formalised",
 ]
 RULE = ("correspondence: every ordered pair of the 16 bodies of de403_2000-2020.bsp (+ the built-in EME2000 frame) x dates across the span (both ends included) x "
@@ -158,15 +161,20 @@ _ENV = {}
 
 
 class FakeSegment:
-    """stands for a jplephem segment: position A + B (jd - 2455000) km, velocity B km/day"""
+    """stands for a jplephem segment: position A + B (jd - 2455000) km, velocity B km/day.
+    six: an SPK type 3 segment - jplephem returns six components, position in km and velocity in km/s, and their
+    derivatives (which JplPropagator.propagate ignores: the `len(pos) == 6` branch)"""
 
-    def __init__(self, center, target, A, B):
-        self.center, self.target, self.A, self.B = center, target, A, B
+    def __init__(self, center, target, A, B, six=False):
+        self.center, self.target, self.A, self.B, self.six = center, target, A, B, six
         self.start_jd, self.end_jd = 2451536.5, 2459216.5
 
     def compute_and_differentiate(self, jd):
         import numpy as np
-        return np.array(self.A) + np.array(self.B) * (jd - 2455000.0), np.array(self.B)
+        pos = np.array(self.A) + np.array(self.B) * (jd - 2455000.0)
+        if self.six:
+            return np.concatenate((pos, np.array(self.B) / 86400.0)), np.concatenate((np.array(self.B), np.zeros(3)))
+        return pos, np.array(self.B)
 
 
 class FakeSPK:
@@ -192,7 +200,7 @@ def env(pck=True, fake=None):
         config.set("env", "jpl", "files", [BSP] + (PCK_FILES if pck else []))
     else:
         config.set("env", "jpl", "files", ["synthetic.bsp"])
-        jpl.Bsp()._spk = [FakeSPK([FakeSegment(c, t, A, B) for c, t, A, B in fake])]
+        jpl.Bsp()._spk = [FakeSPK([FakeSegment(*f) for f in fake])]
     jpl.create_frames()
     pairs = list(jpl.Bsp().pairs.keys())           # (center, target) in dict order
     ids = sorted({i for p in pairs for i in p})
@@ -204,11 +212,16 @@ def env(pck=True, fake=None):
 
 
 def raw_segments(e, jd):
-    """what jplephem returns for every segment of the kernel at the TDB Julian date `jd`: km and km/day"""
+    """what jplephem returns for every segment of the kernel at the TDB Julian date `jd`: km and km/day.
+    A type 3 segment (six components: km and km/s) is presented as the equivalent km/day values, so that the model and the
+    direct chaining - which divide by 86400 - state what its velocity must come out as: km/s x 1000."""
     out = {}
     for (c, t), s in e["segs"].items():
         p, v = s.compute_and_differentiate(jd)
-        out[(c, t)] = [float(x) for x in p] + [float(x) for x in v]
+        if len(p) == 6:
+            out[(c, t)] = [float(x) for x in p[:3]] + [float(x) * 86400.0 for x in p[3:]]
+        else:
+            out[(c, t)] = [float(x) for x in p] + [float(x) for x in v]
     return out
 
 
@@ -365,6 +378,10 @@ def gen_dates(rng, n, span=(2451536.5, 2459216.5)):
 
 ATT_BASE = 1000000          # model code of the frames created with as_frame: ATT_BASE + running number; name "XF<n>"
 ATT_EXTRA = 14             # frames attached by the random histories of one process, on top of one per body
+_ORI = set()               # frames made with orientation="QSW"/"TNW"
+_EPH = set()               # frames made from an Ephem
+_EXH_ORI = {}              # body code -> oriented frame of the exhaustive plan
+_LIMIT = []                # number of frames in this process beyond which the random histories stop making new ones
 _ATT = []                   # every frame attached in this process so far: [x, link, obj, cen]
 _EXH = {}                   # body code -> code of the frame attached to its orbit by the exhaustive plan
 
@@ -410,6 +427,8 @@ class History:
         return name if self.rng.random() < 0.6 else get_frame(name)
 
     def out(self, tok, st, vec, **meta):
+        if tok[0] in ("offset", "center") and (tok[2] in _EPH or tok[3] in _EPH):
+            meta["loose"] = True        # an interpolated offset (exact at a node up to the rounding of the Lagrange weights)
         self.rec["ops"].append({"tok": [str(t) for t in tok], "st": st, "vec": vec, "meta": meta})
         return st
 
@@ -486,6 +505,7 @@ class History:
     def setframe(self, i, b):
         self.uncurl(i)
         try:
+            self.info[i]["loose"] = self.info[i]["loose"] or b in _EPH or self.info[i]["frame"] in _EPH
             self.objs[i].frame = self.frame_arg(b)
             self.info[i]["frame"] = b
             return self.out(["setframe", i, b], "ok", self.cart(self.objs[i]), loose=self.info[i]["loose"])
@@ -518,8 +538,9 @@ class History:
         try:
             o = self.objs[i].copy(frame=self.frame_arg(b))
             inf = self.info[i]
-            self.push(o, b, inf["obj"], inf["cen"], inf["k"], inf["loose"])
-            return self.out(["copy", i, b], "ok", self.cart(o), loose=inf["loose"])
+            loose = inf["loose"] or b in _EPH or inf["frame"] in _EPH
+            self.push(o, b, inf["obj"], inf["cen"], inf["k"], loose)
+            return self.out(["copy", i, b], "ok", self.cart(o), loose=loose)
         except Exception as ex:  # noqa: BLE001
             return self.out(["copy", i, b], status_of(ex), None)
 
@@ -543,22 +564,68 @@ class History:
         except Exception as ex:  # noqa: BLE001
             return self.out(["center", k, a, b], status_of(ex), None)
 
-    def asframe(self, i):
+    def asframe(self, i, variant=None):
+        """objs[i].as_frame(name) / orbit2frame(name, objs[i]); variants: a local orbital orientation (QSW, TNW: the centre
+        is the same, only conversions FROM the new frame are then requested, see oriented()), and the frame made from an
+        Ephem of the orbit whose nodes include the dates of this history (Ephem.as_frame: the offset is interpolated,
+        exactly at a node)"""
         from beyond.frames.frames import orbit2frame
         x = ATT_BASE + len(_ATT)
         name = f"XF{x - ATT_BASE}"
         o = self.objs[i]
+        inf = self.info[i]
+        variant = variant or "plain"
+        if variant in ("QSW", "TNW"):
+            # the local orbital frame is built from the state relative to the default parent, the Earth: it does not
+            # exist for the Earth itself nor for a body that sits on it / moves along the line to it
+            import numpy as np
+            try:
+                sv = np.asarray(o.copy(frame="EME2000", form="cartesian"), dtype=float)
+                h2 = float(np.linalg.norm(np.cross(sv[:3], sv[3:])))
+                ok = h2 > 1e-9 * float(np.linalg.norm(sv[:3]) * np.linalg.norm(sv[3:])) > 0.0
+            except Exception:  # noqa: BLE001
+                ok = False
+            if inf["obj"] == 399 or not ok or not all(np.isfinite(sv)):
+                variant = "plain"
+        link = inf["frame"]
         try:
-            if self.rng.random() < 0.5:
+            if variant == "ephem":
+                from beyond.dates import timedelta
+                nodes = set()
+                for d in self.dates:
+                    # the date itself is a node, four nodes on either side (the dates at the two ends of the kernel's
+                    # span leave 130 s of room)
+                    nodes.update(d + timedelta(seconds=20 * j) for j in range(-4, 5))
+                eph = o.ephem(dates=sorted(nodes))
+                link = self.code_of(str(eph.frame))        # the frame of the propagator, whatever the orbit's frame is now
+                if self.rng.random() < 0.5:
+                    eph.as_frame(name)
+                else:
+                    orbit2frame(name, eph)
+                _EPH.add(x)
+            elif variant in ("QSW", "TNW"):
+                if self.rng.random() < 0.5:
+                    o.as_frame(name, orientation=variant)
+                else:
+                    orbit2frame(name, o, orientation=variant)
+                _ORI.add(x)
+            elif self.rng.random() < 0.5:
                 o.as_frame(name)
             else:
                 orbit2frame(name, o)
         except Exception as ex:  # noqa: BLE001
-            return None, self.out(["asframe", i, x], status_of(ex), None)
-        inf = self.info[i]
-        _ATT.append([x, inf["frame"], inf["obj"], inf["cen"]])
-        self.out(["asframe", i, x], "ok", self.cart(o), loose=inf["loose"])
+            return None, self.out(["asframeeph" if variant == "ephem" else "asframe", i, x], status_of(ex), None, variant=variant)
+        if link in _EPH:
+            _EPH.add(x)         # hangs below an interpolated frame: only good at the dates of this history too
+        _ATT.append([x, link, inf["obj"], inf["cen"]])
+        self.out(["asframeeph" if variant == "ephem" else "asframe", i, x], "ok", self.cart(o), loose=inf["loose"], variant=variant)
         return x, "ok"
+
+
+def plain_frames():
+    """frames made from orbits that any later history of this process may use anywhere (not the ones with a local
+    orientation, not the ones made from an Ephem, whose nodes are the dates of one history)"""
+    return [a[0] for a in _ATT if a[0] not in _ORI and a[0] not in _EPH]
 
 
 def plan_exhaustive(e, rng, dates):
@@ -607,8 +674,41 @@ def plan_exhaustive(e, rng, dates):
             h.offset(k, a, b)
             h.read(i)
     recs.append(h.rec)
+    # the other ways of making a frame from an orbit, for a few bodies per run (twice as many in the thorough tier):
+    # local orbital orientations (QSW / TNW) - the centre must be the body all the same; conversions from the new frame
+    # - and Ephem.as_frame with the dates of the history among the nodes, both ways
+    some = rng.sample(targets, min(8 if len(dates) > 3 else 4, len(targets)))
+    h = History(e, rng, dates)
+    for n, a in enumerate(some):
+        if a not in _EXH_ORI:
+            if h.get(0, a) != "ok":
+                continue
+            x, st = h.asframe(len(h.objs) - 1, ("QSW", "TNW")[n % 2])
+            if st != "ok" or x not in _ORI:
+                continue
+            _EXH_ORI[a] = x
+        for k in range(nd):
+            for b in ids:
+                h.offset(k, _EXH_ORI[a], b)
+    recs.append(h.rec)
+    h = History(e, rng, dates)
+    for a in rng.sample(targets, min(5 if len(dates) > 3 else 3, len(targets))):
+        if h.get(rng.randrange(nd), a) != "ok":
+            continue
+        if rng.random() < 0.5:
+            h.setframe(len(h.objs) - 1, rng.choice(ids))      # the Ephem comes from the propagator: same frame
+        x, st = h.asframe(len(h.objs) - 1, "ephem")
+        if st != "ok":
+            continue
+        for k in range(nd):
+            for b in ids:
+                h.offset(k, x, b)
+                h.offset(k, b, x)
+    recs.append(h.rec)
     for n, r in enumerate(recs):
         r["label"] = f"exhaustive-{n}"
+    if not _LIMIT:
+        _LIMIT.append(len(_ATT) + ATT_EXTRA)
     return recs
 
 
@@ -627,9 +727,12 @@ def plan_random(h, nops):
         r = rng.random()
         if mine and r < 0.25:
             return rng.choice(mine)
-        if _ATT and r < 0.3:
-            return rng.choice(_ATT)[0]
+        old = plain_frames()
+        if old and r < 0.3:
+            return rng.choice(old)
         return rng.choice(ids)
+
+    oriented = []
 
     for _ in range(nops):
         r = rng.random()
@@ -674,13 +777,16 @@ def plan_random(h, nops):
             h.offset(k, a, b)
         elif r < 0.92:
             h.center(rng.randrange(nd), anyframe(), anyframe())
-        elif len(_ATT) < len(targets) + ATT_EXTRA:
-            x, st = h.asframe(rng.randrange(n))
+        elif oriented and rng.random() < 0.5:
+            h.offset(rng.randrange(nd), rng.choice(oriented), anyframe())
+        elif len(_ATT) < (_LIMIT[0] if _LIMIT else len(targets) + ATT_EXTRA):
+            variant = rng.choice(["plain", "plain", "plain", "ephem", "QSW", "TNW"])
+            x, st = h.asframe(rng.randrange(n), variant)
             if st == "ok":
-                mine.append(x)
+                (oriented if x in _ORI else mine).append(x)
         else:
             # enough frames in this process (every one of them lengthens every later route search): use them
-            h.offset(rng.randrange(nd), rng.choice(_ATT)[0], anyframe())
+            h.offset(rng.randrange(nd), rng.choice(plain_frames() or ids), anyframe())
 
 
 def histories_here(e, seed, nrandom, nops, dates, exhaustive=True):
@@ -734,13 +840,15 @@ def spec_history(rec):
     """what every request of a history must return according to the property: the vectors obtained by chaining the
     file's segments directly, with no memory between the requests.  A frame made from the orbit of a body is centred on
     that body.  Returns per request (expected vector or None, magnitude of the terms summed, tainted) where tainted marks
-    the answers that involve a frame made from a re-framed orbit (open finding C18-asframe-reframed)."""
+    the answers that involve a frame made from a re-framed orbit (finding C18-asframe-reframed, fixed by 261fb0a: the family is kept)."""
     pairs = [tuple(p) for p in rec["pairs"]]
     raws = [{tuple(int(x) for x in key.split("-")): v for key, v in raw.items()} for raw in rec["raw"]]
     body = {}       # attached frame -> the body it is centred on
     bad = {}        # attached frames made from an orbit that was no longer in the frame of its propagator -> (link, obj, cen)
+    attinfo = {}    # every attached frame -> (link, obj, cen)
     for x, link, obj, cen in rec["att0"]:
         body[x] = obj
+        attinfo[x] = (link, obj, cen)
         if link != cen:
             bad[x] = (link, obj, cen)
 
@@ -748,9 +856,10 @@ def spec_history(rec):
         ta = a in bad or b in bad
         extra = [0.0] * 6
         for x in (a, b):
-            # a repaired orbit2frame reaches such a frame through link -> cen -> obj: its rounding scales with those terms
-            if x in bad:
-                link, obj, cen = bad[x]
+            # a frame made from an orbit is reached through link -> cen -> obj: the rounding scales with those terms
+            # (the answer itself may cancel: the frame of the orbit of b seen from b)
+            if x in attinfo:
+                link, obj, cen = attinfo[x]
                 for u, w in ((body.get(link, link), cen), (obj, cen)):
                     m = chain_direct(pairs, raws[k], u, w)[1]
                     extra = [p + q for p, q in zip(extra, m or extra)]
@@ -802,12 +911,14 @@ def spec_history(rec):
         elif name in ("offset", "center"):
             v, m, ta = rel(int(t[1]), int(t[2]), int(t[3]))
             res.append((v, m, ta))
-        elif name == "asframe":
+        elif name in ("asframe", "asframeeph"):
             o = objs[int(t[1])]
             x = int(t[2])
             body[x] = o["obj"]
-            if o["frame"] != o["cen"]:
-                bad[x] = (o["frame"], o["obj"], o["cen"])
+            link = o["cen"] if name == "asframeeph" else o["frame"]
+            attinfo[x] = (link, o["obj"], o["cen"])
+            if link != o["cen"]:
+                bad[x] = attinfo[x]
             res.append((o["vec"], o["mag"], o["taint"]))
         else:
             raise RuntimeError("unknown request " + name)
@@ -864,7 +975,7 @@ def oracle_histories(out, recs, family=None):
                     fam = f"spk-hist-{name}-{sub}-after-{last_mut}"
                 out.fail(fam, f"request '{' '.join(op['tok'])}' (request {n} of the history) does not return the chained segments (components {bad})",
                          history_input(rec, n), observed=op["vec"], expected=exp)
-            if name in ("setframe", "setform", "setval", "asframe"):
+            if name in ("setframe", "setform", "setval", "asframe", "asframeeph"):
                 last_mut = name
 
 
@@ -926,7 +1037,7 @@ def gen_kernel(rng, rooted):
     for c, t in edges:
         A = [rng.uniform(-1, 1) * 10 ** rng.uniform(3, 9) for _ in range(3)]
         B = [rng.uniform(-1, 1) * 10 ** rng.uniform(2, 6) for _ in range(3)]
-        fake.append([c, t, A, B])
+        fake.append([c, t, A, B, rng.random() < 0.3])       # three in ten are type 3 segments (position and velocity)
     return fake
 
 
